@@ -625,7 +625,28 @@ func c10exec(c *h.Ctx, cs *h.Case) {
 			tree = cl.Roster.GenerateBinaryTree()
 			cs.Impl = append(cs.Impl, "ok")
 			continue
-		case "srvstart", "srvclose", "srvdone", "srvgrace", "srvchurn", "srvwait", "srvbusy", "srvrelease":
+		case "lnstress":
+			ns, e1 := 0, error(nil)
+			nd, e2 := 0, error(nil)
+			if len(tk) == 5 {
+				ns, e1 = strconv.Atoi(tk[2])
+				nd, e2 = strconv.Atoi(tk[3])
+			}
+			fresh := true
+			if ctl != nil {
+				ctl.mu.Lock()
+				fresh = len(ctl.threads) == 0 && len(ctl.peers) == 0
+				ctl.mu.Unlock()
+			}
+			if len(tk) != 5 || e1 != nil || e2 != nil || ns < 1 || ns > 16 || nd < 0 || nd > 32 || (tk[4] != "0" && tk[4] != "1") ||
+				(tk[1] != "tcp" && tk[1] != "local") || !fresh || strings.HasPrefix(tk[2], "+") || strings.HasPrefix(tk[3], "+") {
+				bad()
+				continue
+			}
+			cs.Impl = append(cs.Impl, c10lnstress(cs, tk[1], ns, nd, tk[4] == "1"))
+			outcome = append(outcome, cs.Impl[len(cs.Impl)-1])
+			continue
+		case "srvstart", "srvclose", "srvclose2", "srvdone", "srvgrace", "srvchurn", "srvwait", "srvbusy", "srvrelease":
 			if cl == nil {
 				bad()
 				continue
@@ -777,6 +798,56 @@ func c10exec(c *h.Ctx, cs *h.Case) {
 				}
 				started[i].Done()
 				cs.Impl = append(cs.Impl, fmt.Sprintf("insts=%d dispatchers=%d", ov.VerifInstanceCount(), c10dispatchers(bound)))
+			case "srvclose2":
+				// n overlapping Close calls (the application's shutdown and a protocol's CloseHost, say)
+				n, ok := num()
+				if !ok || n < 2 || n > 32 {
+					bad()
+					continue
+				}
+				gate := make(chan struct{})
+				var wg sync.WaitGroup
+				var ret, nils, arrived int32
+				for j := 0; j < n; j++ {
+					wg.Add(1)
+					go func() {
+						defer wg.Done()
+						<-gate
+						// all at the same instant, as far as the machine allows: spin until everybody is here
+						atomic.AddInt32(&arrived, 1)
+						for t0 := time.Now(); atomic.LoadInt32(&arrived) < int32(n) && time.Since(t0) < 20*time.Millisecond; {
+						}
+						if err := cl.Servers[0].Close(); err == nil {
+							atomic.AddInt32(&nils, 1)
+						}
+						atomic.AddInt32(&ret, 1)
+					}()
+				}
+				close(gate)
+				alldone := make(chan bool, 1)
+				go func() { wg.Wait(); alldone <- true }()
+				select {
+				case <-alldone:
+				case <-time.After(15 * time.Second):
+					cs.Impl = append(cs.Impl, "hang")
+					cs.Fail("hang:close", fmt.Sprintf("%d of %d overlapping Server.Close calls on a started server did not return within 15 s", n-int(atomic.LoadInt32(&ret)), n))
+					return
+				}
+				closedOnce = true
+				atomic.StoreInt32(&c10closedAt, 1)
+				bound = 0
+				ni := ov.VerifInstanceCount()
+				nd := c10dispatchers(0)
+				cs.Impl = append(cs.Impl, fmt.Sprintf("returned=%d ok=%d insts=%d dispatchers=%d", ret, nils, ni, nd))
+				if nd != 0 {
+					cs.Fail("dispatch-goroutine-left-behind", fmt.Sprintf("%d Dispatch routine(s) still running after %d overlapping Server.Close calls returned", nd, n))
+				}
+				if ni != 0 {
+					cs.Fail("instance-after-close", fmt.Sprintf("%d protocol instance(s) listed on the closed server", ni))
+				}
+				if cl.Servers[0].Router.Listening() {
+					cs.Fail("still-listening", "the router still listens after Server.Close")
+				}
 			case "srvclose":
 				if len(tk) != 1 {
 					bad()
@@ -1497,7 +1568,7 @@ func c10gen(c *h.Ctx, yield func(*h.Case)) {
 		// a message received but not yet tested when Stop sets the flag: dropped
 		"delivery-dropped": {"in 1", "rel i1", "rel i1", "stop", "rel stop1", "rel i1.h1", "rel stop1", "rel stop1", "fin"},
 		// established connection, Send on it after Stop closed it: reconnects, refused, closed
-		"resend-after-stop": {"send 1", "rel s1", "rel s1", "stop", "rel stop1", "resend 1", "rel r1", "rel s1.h1", "rel stop1", "rel stop1", "fin"},
+		"resend-after-stop":  {"send 1", "rel s1", "rel s1", "stop", "rel stop1", "resend 1", "rel r1", "rel s1.h1", "rel stop1", "rel stop1", "fin"},
 		"resend-before-stop": {"send 1", "rel s1", "rel s1", "resend 1", "msg 1", "rel s1.h1", "rel s1.h1", "stop", "rel stop1", "rel s1.h1", "rel stop1", "rel stop1", "fin"},
 		// Stop twice, one after the other and overlapping
 		"stop-twice":       {"send 1", "rel s1", "rel s1", "stop", "rel stop1", "rel s1.h1", "rel stop1", "rel stop1", "stop", "rel stop2", "rel stop2", "rel stop2", "fin"},
@@ -1636,12 +1707,34 @@ func c10gen(c *h.Ctx, yield func(*h.Case)) {
 		}
 		emit("server:random", ops)
 	}
+	// overlapping Close calls on a started server (the application's shutdown and a protocol's
+	// CloseHost, say): every call returns, one performs the hand-shake with Start
+	for i := 0; i < c.Pick(24, 240); i++ {
+		ops := []string{"srv " + transports[r.Intn(2)]}
+		for k := r.Intn(3); k > 0; k-- {
+			ops = append(ops, "srvstart")
+		}
+		ops = append(ops, fmt.Sprintf("srvclose2 %d", 2+r.Intn(7)), "srvstart")
+		if r.Intn(2) == 0 {
+			ops = append(ops, "srvclose")
+		}
+		if r.Intn(4) == 0 {
+			ops = append(ops, fmt.Sprintf("srvclose2 %d", 2+r.Intn(3)))
+		}
+		emit("server:overlapping-closes", ops)
+	}
+	// a listener on its own: Stop calls, connection attempts and the accept loop running freely
+	for i := 0; i < c.Pick(20, 200); i++ {
+		tr := transports[r.Intn(2)]
+		emit("listener:"+tr, []string{"init " + tr, fmt.Sprintf("lnstress %s %d %d %d", tr, 1+r.Intn(6), r.Intn(12), c10bit(r.Intn(4) > 0))})
+	}
 	// malformed lines
-	for _, l := range []string{"c10 init udp", "c10 frob", "c10 rel", "c10 init local extra"} {
+	for _, l := range []string{"c10 init udp", "c10 frob", "c10 rel", "c10 init local extra", "c10 lnstress tcp 0 1 1", "c10 lnstress udp 1 1 1", "c10 srvclose2 3"} {
 		c.Count("class=malformed")
 		yield(&h.Case{Class: "malformed", Ops: []string{l}, Trivial: true})
 	}
-	for _, ops := range [][]string{{"c10 init local", "c10 rel s9", "c10 send x", "c10 msg 3", "c10 send 1", "c10 send 1", "c10 fin"}} {
+	for _, ops := range [][]string{{"c10 init local", "c10 rel s9", "c10 send x", "c10 msg 3", "c10 send 1", "c10 send 1", "c10 fin"},
+		{"c10 srv local", "c10 srvclose2 1", "c10 srvclose2 40", "c10 srvclose2 x", "c10 srvclose"}} {
 		c.Count("class=malformed")
 		yield(&h.Case{Class: "malformed", Ops: ops, Trivial: true})
 	}
